@@ -14,20 +14,26 @@ Init == par = <<>> /\ cs = NoCase
 Grow == /\ cs = NoCase /\ Len(par) < MaxN
         /\ \E ps \in Small(Revs(par) \cup Ghosts, MaxPar) : par' = Append(par, ps)
         /\ UNCHANGED cs
-FullCases == {[kind |-> "full", K |-> K, missing |-> m, tips |-> {}, depth |-> 0] :
-              K \in SUBSET Present(par), m \in SUBSET (Ghosts \cup {NULL})}
+\* (missing, filled): a key cannot be both answered and recorded missing; only ghosts the client recorded as
+\* missing are filled later
+MF(K) == {mf \in (SUBSET (Ghosts \cup {NULL})) \X (SUBSET Ghosts) : mf[1] \cap K = {} /\ mf[2] \subseteq mf[1]}
+FullCases == {[kind |-> "full", K |-> K, missing |-> mf[1], tips |-> {}, depth |-> 0, filled |-> mf[2]] :
+              K \in SUBSET Present(par), mf \in MF({})}
 LimitedCases == IF MaxTips = 0 THEN {} ELSE
-                {[kind |-> "limited", K |-> K, missing |-> {}, tips |-> t, depth |-> d] :
+                {[kind |-> "limited", K |-> K, missing |-> mf[1], tips |-> t, depth |-> d, filled |-> mf[2]] :
                  K \in SUBSET Present(par) \ {{}}, t \in Small(Present(par) \cup Ghosts, MaxTips) \ {{}},
-                 d \in 0..MaxDepth}
-\* a key cannot be both answered (in K) and recorded as missing
+                 d \in 0..MaxDepth, mf \in MF({})}
 Obtainable(x) == x.K \cap x.missing = {}
 Pick == /\ cs = NoCase /\ Len(par) >= 1
         /\ cs' \in {x \in FullCases \cup LimitedCases : Obtainable(x)}
         /\ UNCHANGED par
 Next == Grow \/ Pick
-Out == SpecOutS(par, cs.kind, cs.K, cs.missing, cs.tips, cs.depth)
-RecipeExact == cs # NoCase => HoldsOn(Out)
+Out == SpecOutS(par, cs.kind, cs.K, cs.missing, cs.tips, cs.depth, cs.filled)
+RecipeExact == cs # NoCase /\ Guaranteed(cs.kind, cs.filled) => HoldsOn(Out)
+\* design fact, expected to be VIOLATED: the full variant is not robust against a ghost being filled in
+WitnessFullNotFillRobust == cs # NoCase /\ cs.kind = "full" => HoldsOn(Out)
+\* ... and then the count check is what refuses the recipe (never a silent acceptance of a wrong walk)
+CheckRefusesWrongWalk == cs # NoCase /\ Out.walk \ {NULL} # Out.keys \ {NULL} => ~Out.ok
 \* anti-vacuity: a violable invariant showing non-trivial recipes are reached (further witnesses: SearchRecipeGen)
 WitnessPartialCache == ~(cs.kind = "full" /\ Cardinality(Out.start) >= 2 /\ Cardinality(Out.stop) >= 2)
 =============================================================================
